@@ -97,9 +97,13 @@ fn outer_cfgs(thorough: bool) -> Vec<(String, CircuitConfig)> {
         ("std".to_string(), rec_config(2, 4, 5, 4, 1)),
         // the repository's own size-optimised recursion shape: with 37 routed wires the verifier
         // circuit takes other code paths (two-gate bit splits, Poseidon without the MDS gate, ...)
+        // ... and every FRI parameter differs from the inner configurations' (fewer query rounds, another
+        // rate, cap height, grinding and schedule): a parameter taken from the wrong side shows
         ("narrow37".to_string(), {
-            let mut c = rec_config(2, 4, 5, 4, 1);
+            let mut c = rec_config(1, 4, 5, 4, 1);
             c.num_routed_wires = 37;
+            c.fri_config.rate_bits = 4;
+            fix_security(&mut c);
             c
         }),
     ];
